@@ -29,7 +29,7 @@ CHECKS = {
             "Every dynamic_array_ref mutator and reader is driven through all operation sequences to depth 2 (quick) / 3 "
             "(thorough) from every state of size <= 3 and through long random sequences, for all 24 length-type x "
             "element-type x byte-order instantiations; after each transition prefix, payload, returned iterator, "
-            "canaries and untouched tail are compared with std::vector, and a vector-valid call that invokes the "
+            "canaries and untouched tail are compared with std::vector (views over char and std::byte), and a vector-valid call that invokes the "
             "assertion handler is a violation. Held on the transitions observed, nothing more.",
             "sequences bounded as stated; operations limited to those valid for a vector that fit the buffer",
             "DESIGN.md section 3, C13"),
@@ -38,13 +38,16 @@ CHECKS = {
             "UBSan shift checks, constexpr evaluation leg",
             "sbeppc generates sets for all four widths with every choice index; each generated getter/setter/by-tag "
             "accessor, ==, raw access and visit is executed on all (8/16 bit) or thousands (32/64 bit) of underlying "
-            "values and compared with plain bit arithmetic, at run time and in constant expressions, under UBSan.",
+            "values and compared with plain bit arithmetic, at run time and (named and by-tag accessors, raw access, "
+            "equality, visiting with a constexpr visitor; C++14 and later) in constant expressions, under UBSan.",
             "32/64-bit values are sampled; g++12/clang++14 only",
             "DESIGN.md section 3, C15"),
     "C12": ("exploration",
             "in-process index-arithmetic oracle over every iterator expression in a small scope on hand-laid images, "
             "ASan+UBSan (pointer/signed overflow), sbepp assertion handler",
-            "For all 16 (numInGroup, blockLength) type pairs sbeppc generates a flat and a nested group; every iterator "
+            "For all 16 (numInGroup, blockLength) type pairs with the canonical dimension and for 4 type pairs x 4 other "
+            "dimension layouts (reversed member order, custom offsets with gaps, numGroups/numVarDataFields behind, extra "
+            "members around) sbeppc generates a flat and a nested group; every iterator "
             "expression up to depth 2 (quick) / 3 (thorough), all comparisons/distances for all index pairs, container "
             "accessors and resize/clear are executed on images laid out by hand (sizes 0..3/4, wire block lengths "
             "0/1/4) and compared by address and index; complete inside that scope.",
@@ -61,7 +64,8 @@ CHECKS = {
             "DESIGN.md section 3, C16"),
     "C20": ("fault_enumeration",
             "LD_PRELOAD fault injection at every output-directed libc call of the release binary (mkdir, fopen, write, writev, "
-            "rename/link), one fault per run, plus obstructed destinations in populated trees; exit status and on-disk bytes "
+            "rename/link), one fault per run, plus obstructed destinations in populated trees (every file and every directory of the "
+            "reference tree, also directories left empty, incl. a schema without messages); exit status and on-disk bytes "
             "compared with the fault-free run",
             "Every single mkdir/fopen/write/writev call sbeppc makes towards the output directory (counted by a dry run) is "
             "made to fail with ENOSPC/EACCES/EIO, to write short, and to write short then fail, for several schemas; "
@@ -73,7 +77,8 @@ CHECKS = {
             "offline comparison of the whole pre-filled arena after scripted encodes with an independent python encoder; "
             "generated drivers under ASan+UBSan",
             "For the covering corpus and seeded random schemas sbeppc generates headers; generated drivers encode random "
-            "value trees in four forms (named, by-tag reversed, cursor, cursor+by-tag) into a pattern-filled arena which "
+            "value trees in four forms (named, by-tag reversed, cursor, cursor+by-tag) through views over char, unsigned char "
+            "and std::byte into a pattern-filled arena which "
             "is compared byte for byte with the pattern overlaid by the reference image (so a symmetric setter/getter "
             "error cannot hide and any stray write shows). Held on the schemas, scripts and configurations explored.",
             "generator domain of DESIGN 2.2 (unsigned level headers, ids/block lengths representable in header members, depth <= 3); the python reference model is the trusted oracle; g++12/clang++14",
@@ -117,7 +122,10 @@ CHECKS = {
             "visit results compared with the schema",
             "sbepp::visit/visit_children are run with a visitor that logs callback kind, the name its tag's traits give, "
             "the value and the order, once complete and once per stop point k; the log must equal the first k model "
-            "events and nothing may follow; both visit overloads; enum (known/unknown) and set visits for every member.",
+            "events and nothing may follow; both visit overloads; enum (known/unknown) and set visits for every member; "
+            "get_by_tag in its plain and cursor overloads (by-tag and cursor+by-tag decode of two images per message) "
+            "against the value tree, set_by_tag through the cursor+tag encode form of C01 on the same drivers. Views over "
+            "char, unsigned char and std::byte.",
             "generator domain of DESIGN 2.2 (unsigned level headers, ids/block lengths representable in header members, depth <= 3); the python reference model is the trusted oracle; g++12/clang++14; stop points sampled beyond 40 (quick) / 400 (thorough) callbacks",
             "DESIGN.md section 3, C19"),
     "C09": ("exploration",
@@ -146,11 +154,12 @@ CHECKS = {
             "touch-everything TU that names every entity through its schema name, over generated schemas incl. a name-"
             "clash pool",
             "The oracle is the compilers' verdict (g++ 12, clang++ 14; C++11..23) on what sbeppc really generated for "
-            "corpus, random, clash-pool and special-purpose schemas; the TU is spelled from the schema model, never from "
+            "corpus, random, clash-pool and special-purpose schemas (incl. --schema-name and --inject-include runs, entities "
+            "named like locals of the generated functions: last, args); the TU is spelled from the schema model, never from "
             "sbeppc's mangling tables, so reachability under the unmodified name is part of what compiles. This is a "
             "generated compile test driven by a workload generator rather than an in-process monitor (see DESIGN section 4).",
             "clash pool = fixed names, entity/member names and their mangled variants (X, X_0, X_entry); identifiers that "
-            "merely coincide with parameters of the generated code (Byte, Cursor, v, ...) are outside the property's clash domain",
+            "merely coincide with template parameters of the generated code (Byte, Cursor, Visitor, T) are outside the property's clash domain",
             "DESIGN.md section 3, C07"),
     "C06": ("fault_enumeration",
             "hardware guard page right behind byte n-1 (SIGSEGV trap), verdict compared with an independent wire walk, "
